@@ -768,12 +768,11 @@ Qed.
 
 Lemma inv_releaseall cfg s b0 : inv cfg s -> inv cfg (fst (step cfg s (ReleaseAll b0))).
 Proof.
-  intros I. cbn [step fst]. destruct (m_session (get_mgr s b0)) as [l|] eqn:Se.
-  - now apply inv_session_end.
-  - pose proof I as (W & L & M & G). apply inv_update_local; try assumption.
-    + intros r. pose proof (L b0 r) as Lr. lr_fields Lr. constructor; mgr_cbn; lr_auto.
-    + intros S A. discriminate.
-    + now right.
+  intros I. cbn [step fst].
+  pose proof I as (W & L & M & G). apply inv_update_local; try assumption.
+  - intros r. pose proof (L b0 r) as Lr. lr_fields Lr. constructor; mgr_cbn; lr_auto.
+  - intros S A. discriminate.
+  - now right.
 Qed.
 
 Lemma inv_restart cfg s b0 : inv cfg s -> inv cfg (fst (step cfg s (Restart b0))).
@@ -1248,4 +1247,151 @@ Proof.
     + destruct a; cbn [fst snd]; (split; [reflexivity|]); intros _ _;
         unfold NOT_LEADER_OR_FOLLOWER, REQUEST_TIMED_OUT; tauto.
     + split; [reflexivity|]. intros _ D. discriminate.
+Qed.
+
+(* ------------------------------------------------------------------ C19 (c), exact code *)
+
+Definition no_flight (s : state) (b r : bytes) : Prop := alookup r (m_flights (get_mgr s b)) = None.
+
+Ltac nf_set r rid N :=
+  unfold no_flight; rewrite get_mgr_set_same; mgr_cbn;
+  rewrite ?(alookup_aset_other r rid) by exact N; rewrite ?(alookup_aremove_other r rid) by exact N.
+
+(* the steps of an Acquire for r leave the flights of other resources alone *)
+Lemma acq_step_flights_other cfg s b r rid ev :
+  r <> rid ->
+  (ev = AcqBegin b r \/ ev = AcqTxn b r \/ ev = ReacqTxn b r \/ ev = AcqCommitLocal b r) ->
+  no_flight s b rid -> no_flight (fst (step cfg s ev)) b rid.
+Proof.
+  intros N [-> | [-> | [-> | ->]]] H; cbn [step].
+  - destruct (m_closed _); [exact H|]. destruct (alookup r (m_owned _)); [exact H|].
+    destruct (alookup r (m_flights _)); [exact H|].
+    destruct (m_session _); cbn [fst]; [nf_set r rid N; exact H|].
+    destruct (grant _). cbn [fst]. nf_set r rid N. exact H.
+  - destruct (alookup r (m_flights _)) as [[l|l|l rv]|]; try exact H.
+    destruct (txn _ _ _ _) as [e' res]. destruct (t_err res); cbn [fst]; [nf_set r rid N; exact H|].
+    destruct (t_succ res); cbn [fst]; [nf_set r rid N; exact H|].
+    destruct (t_gets res) as [|[x|] ?]; cbn [fst]; try (nf_set r rid N; exact H).
+    destruct (bytes_eqb _ _); cbn [fst]; nf_set r rid N; exact H.
+  - destruct (alookup r (m_flights _)) as [[l|l|l rv]|]; try exact H.
+    destruct (txn _ _ _ _) as [e' res]. destruct (t_err res); cbn [fst]; [nf_set r rid N; exact H|].
+    destruct (t_succ res); cbn [fst]; nf_set r rid N; exact H.
+  - destruct (alookup r (m_flights _)) as [[l|l|l rv]|]; try exact H.
+    destruct (session_is _ _); cbn [fst]; nf_set r rid N; exact H.
+Qed.
+
+Lemma acquire_flights_other cfg s b r rid :
+  r <> rid -> no_flight s b rid -> no_flight (fst (acquire cfg s b r)) b rid.
+Proof.
+  intros N H. unfold acquire.
+  pose proof (acq_step_flights_other cfg s b r rid (AcqBegin b r) N ltac:(tauto) H) as H1.
+  destruct (step cfg s (AcqBegin b r)) as [s1 [a|]]; cbn [fst] in *; [exact H1|].
+  pose proof (acq_step_flights_other cfg s1 b r rid (AcqTxn b r) N ltac:(tauto) H1) as H2.
+  destruct (step cfg s1 (AcqTxn b r)) as [s2 [a|]]; cbn [fst] in *; [exact H2|].
+  pose proof (acq_step_flights_other cfg s2 b r rid (ReacqTxn b r) N ltac:(tauto) H2) as H3.
+  destruct (step cfg s2 (ReacqTxn b r)) as [s3 [a|]]; cbn [fst] in *; [exact H3|].
+  pose proof (acq_step_flights_other cfg s3 b r rid (AcqCommitLocal b r) N ltac:(tauto) H3) as H4.
+  destruct (step cfg s3 (AcqCommitLocal b r)) as [s4 [a|]]; cbn [fst] in *; exact H4.
+Qed.
+
+(* Acquire of a resource that another broker owns, with no Acquire for it in flight *)
+Lemma acquire_foreign cfg s b b' r :
+  inv cfg s -> b' <> b -> owns s b' r = true -> no_flight s b r ->
+  (snd (acquire cfg s b r) = ANotOwner \/ snd (acquire cfg s b r) = AShutdown) /\
+  no_flight (fst (acquire cfg s b r)) b r.
+Proof.
+  intros I Nb O Nf. pose proof I as (W & L & M & G).
+  destruct (inv_owner_bound cfg s b' r I O) as (S' & rev' & _ & _ & x & Gx & Vx & _).
+  assert (Nown : alookup r (m_owned (get_mgr s b)) = None).
+  { destruct (alookup r (m_owned (get_mgr s b))) as [rv|] eqn:A; [|reflexivity].
+    exfalso. apply Nb. apply (inv_single_owner cfg s b' b r I O). unfold owns. now rewrite A. }
+  assert (Cr : 0 < kv_create x).
+  { apply get_In in Gx. destruct W as (_ & _ & _ & W3). apply (W3 _ _ (proj1 Gx)). }
+  assert (Vb : bytes_eqb (kv_val x) b = false) by (apply bytes_eqb_neq; congruence).
+  unfold acquire. cbn [step]. unfold no_flight in Nf.
+  destruct (m_closed (get_mgr s b)) eqn:Cl; [cbn [fst snd]; tauto|].
+  rewrite Nown, Nf.
+  destruct (m_session (get_mgr s b)) as [l|] eqn:Se.
+  - rewrite get_mgr_set_same. mgr_cbn. rewrite alookup_aset_same. cbn [s_etcd].
+    rewrite txn_acquire by (intros y A; rewrite Gx in A; inversion A; subst y; exact Cr).
+    rewrite Gx. cbn [t_err t_succ t_gets]. rewrite Vb. cbn [fst snd]. split; [tauto|].
+    unfold no_flight. rewrite get_mgr_set_same. mgr_cbn. apply alookup_aremove_same.
+  - destruct (grant (s_etcd s)) as [e' l] eqn:Gr.
+    assert (Ge : get e' (lease_key cfg r) = Some x).
+    { replace e' with (fst (grant (s_etcd s))) by now rewrite Gr. rewrite grant_get by assumption. exact Gx. }
+    rewrite get_mgr_set_same. mgr_cbn. rewrite alookup_aset_same. cbn [s_etcd].
+    rewrite txn_acquire by (intros y A; rewrite Ge in A; inversion A; subst y; exact Cr).
+    rewrite Ge. cbn [t_err t_succ t_gets]. rewrite Vb. cbn [fst snd]. split; [tauto|].
+    unfold no_flight. rewrite get_mgr_set_same. mgr_cbn. apply alookup_aremove_same.
+Qed.
+
+Lemma acquire_all_foreign cfg b b' rid rs : forall s,
+  c_guard cfg = true -> inv cfg s -> b' <> b -> owns s b' rid = true -> no_flight s b rid ->
+  forall a, In (rid, a) (combine rs (snd (acquire_all cfg s b rs))) -> a = ANotOwner \/ a = AShutdown.
+Proof.
+  induction rs as [|r rs IH]; intros s Gd I Nb O Nf a; cbn [acquire_all]; [intros []|].
+  assert (Nown : owns s b rid = false).
+  { destruct (owns s b rid) eqn:A; [|reflexivity]. exfalso. apply Nb. apply (inv_single_owner cfg s b' b rid I O A). }
+  destruct (bytes_eq_dec r rid) as [->|N].
+  - rewrite Nown.
+    pose proof (acquire_spec cfg s b rid) as Sp.
+    destruct (acquire_foreign cfg s b b' rid I Nb O Nf) as [Res Nf1].
+    destruct (acquire cfg s b rid) as [s1 a1]. cbn [fst snd] in *. destruct Sp as (I1 & M1 & _).
+    specialize (IH s1 Gd (I1 Gd I) Nb (M1 _ _ O) Nf1).
+    destruct (acquire_all cfg s1 b rs) as [s2 l]. cbn [snd combine] in *.
+    intros [H|H]; [inversion H; subst; exact Res|now apply IH].
+  - assert (St : let '(s1, _) := (if owns s b r then (s, AOk) else acquire cfg s b r) in
+                  inv cfg s1 /\ owns s1 b' rid = true /\ no_flight s1 b rid).
+    { destruct (owns s b r); [tauto|].
+      pose proof (acquire_spec cfg s b r) as Sp. pose proof (acquire_flights_other cfg s b r rid N Nf) as Nf1.
+      destruct (acquire cfg s b r) as [s1 a1]. cbn [fst] in *. destruct Sp as (I1 & M1 & _).
+      split; [now apply I1|]. split; [now apply M1|exact Nf1]. }
+    destruct (if owns s b r then (s, AOk) else acquire cfg s b r) as [s1 a1].
+    destruct St as (I1 & O1 & Nf1). specialize (IH s1 Gd I1 Nb O1 Nf1).
+    destruct (acquire_all cfg s1 b rs) as [s2 l]. cbn [snd combine] in *.
+    intros [H|H]; [inversion H; congruence|now apply IH].
+Qed.
+
+Lemma lease_errors_some r : forall rs res acc a,
+  alookup r (lease_errors rs res acc) = Some a ->
+  alookup r acc = Some a \/ In (r, a) (combine rs res).
+Proof.
+  induction rs as [|r1 rs IH]; intros res acc a H; cbn [lease_errors] in H; [now left|].
+  destruct res as [|a1 res]; [now left|].
+  apply IH in H. destruct H as [H|H]; [|right; now right].
+  destruct a1; try (now left).
+  all: destruct (bytes_eq_dec r1 r) as [<-|N];
+    [rewrite alookup_aset_same in H; inversion H; subst; right; now left
+    |rewrite alookup_aset_other in H by assumption; now left].
+Qed.
+
+(* a partition that another broker owns, with no Acquire for it in flight on this broker, is
+   answered exactly NOT_LEADER_OR_FOLLOWER *)
+Theorem produce_foreign_exact cfg env evs b b' req :
+  c_guard cfg = true -> pe_leasing env = true -> pe_etcd_avail env = true ->
+  let s := run cfg evs in
+  forall t p i j out o,
+    nth_error req i = Some t -> nth_error (t_parts t) j = Some p ->
+    nth_error (snd (produce cfg env s b req)) i = Some out -> nth_error out j = Some o ->
+    let rid := partition_rid (t_topic t) (p_part p) in
+    t_allowed t = true -> b' <> b -> owns s b' rid = true -> no_flight s b rid ->
+    o = (NOT_LEADER_OR_FOLLOWER, false).
+Proof.
+  intros Gd Le Av. cbn zeta. intros t p i j out o Ht Hp Hout Ho Al Nb O Nf.
+  pose proof (rid_in_req req i j t p Ht Hp) as Hin.
+  pose proof (acquire_all_foreign cfg b b' _ (req_rids req) (run cfg evs) Gd (inv_run cfg evs Gd) Nb O Nf) as Fo.
+  pose proof (acquire_all_spec cfg b (req_rids req) (run cfg evs)) as Sp.
+  unfold produce in Hout. rewrite Le in Hout.
+  destruct (acquire_all cfg (run cfg evs) b (req_rids req)) as [s' res]. cbn [fst snd] in *.
+  destruct Sp as (I' & Mo & Ln & K).
+  rewrite nth_error_map, Ht in Hout. cbn in Hout. inversion Hout; subst out. clear Hout.
+  unfold topic_outcome in Ho. rewrite Al, nth_error_map, Hp in Ho. cbn in Ho. inversion Ho; subst o. clear Ho.
+  unfold part_outcome. rewrite Av. cbn [negb].
+  destruct (alookup (partition_rid (t_topic t) (p_part p)) (lease_errors (req_rids req) res [])) as [a|] eqn:Ea.
+  - apply lease_errors_some in Ea. destruct Ea as [Ea|Ea]; [discriminate|].
+    destruct (Fo a Ea) as [-> | ->]; reflexivity.
+  - exfalso. apply lease_errors_none in Ea. destruct Ea as [_ Hall].
+    destruct (In_combine_exists _ res _ Ln Hin) as [a Ha].
+    pose proof (K _ a Ha (Hall a Ha)) as Ob. apply Nb.
+    apply (inv_single_owner cfg s' b' b _ (I' Gd (inv_run cfg evs Gd)) (Mo _ _ O) Ob).
 Qed.
